@@ -27,7 +27,7 @@ CLAIMS = {
  "C09": ("Lean theorem: a native declaration is accepted iff the first attached coin of that denom (absent = 0) carries exactly the declared amount; rejection is an ordinary error. "
          "Correspondence: the finite funds-shape matrix enumerated completely.", "§6 C09", "Lean 4 proof (decision logic) + exhaustive finite matrix"),
  "C10": ("Lean theorems: soundness and completeness of both branches of assert_max_spread in cross-multiplied integer form, correctness and success set of the decimals normalisation, guard only with max_spread. "
-         "Correspondence: all 20×20 decimal pairs × both branches with values solved around the limit; guard vs other failure compared by enum variant; world family swap: every accepted swap is judged against the bound on its reported amounts with the pair's own decimals, every guard rejection against the quote taken just before.",
+         "Correspondence: all 20×20 decimal pairs × both branches with values solved around the limit; guard vs other failure compared by enum variant; world family swap: every accepted swap is judged against the bound on its reported amounts with the pair's own decimals, every guard rejection against the quote taken just before. World-level theorems (C10W): a successful swap — direct or through the cw20 hook — passed assert_max_spread on its reported amounts with the pair's own decimals in offer/ask order, hence satisfies the bound; a guard rejection comes only from that call on the would-be amounts.",
          "§6 C10", "Lean 4 proof + differential correspondence"),
  "C12": ("Lean theorems: closed integer form of compute_offer_amount, never above the documented closed form, below it by at most the stated rounding, commission formula. "
          "Correspondence: compute_offer_amount family around the feasibility frontier.", "§6 C12", "Lean 4 proof + differential correspondence"),
@@ -72,7 +72,7 @@ CLAIMS = {
          "Correspondence + oracle: world families inject withdrawals after arbitrary prefixes and the oracle demands success whenever the entitlement condition holds in the observed state.",
          "§6 C20", "Lean 4 proof (liveness: every step of the withdrawal succeeds under an inductive invariant) + differential correspondence on cw-multi-test"),
  "C15": ("Lean theorems: soundness and completeness of assert_slippage_tolerance, >100% always rejected, no abort on positive 128-bit inputs. "
-         "Correspondence: slippage family with deposits solved around both ratio limits; world family liquidity: accepted provisions and guard rejections judged on the deposits in pair order and the observed reserves.", "§6 C15", "Lean 4 proof + differential correspondence"),
+         "Correspondence: slippage family with deposits solved around both ratio limits; world family liquidity: accepted provisions and guard rejections judged on the deposits in pair order and the observed reserves. World-level theorems (C15W): an accepted provision passed assert_slippage_tolerance on the deposits in pair order and the reserves net of native deposits; a guard rejection comes only from that call.", "§6 C15", "Lean 4 proof + differential correspondence"),
 }
 
 # claimed in CLAIMS but proofs still being written
